@@ -21,6 +21,7 @@ def run_c16(chk: Check) -> int:
     ht = H.pmap(H._mk_resync, [(s + i, 9 if quick else 90, 3, False) for i in range(16)])
     H.judge_and_harvest(chk, ht, ("C16",), "c16-hdlc")
     pt = P.pmap(P._mk_resync, [(s + 100 + i, 6 if quick else 48) for i in range(16)])
+    pt += P.guard_sweep_traces(chk.rng)
     P.judge_and_harvest(chk, pt, ("C16",), "c16-p1")
     t = ht[0]
     chk.sample({"reader": "hdlc", "cfg": t["cfg"], "origin": t["origin"], "noise": bytes(t["plan"][0]["o"][:24]).hex(),
@@ -109,6 +110,7 @@ def run_c14(chk: Check) -> int:
     H.judge_and_harvest(chk, ht, ("C14", "C16"), "c14-hdlc")
     pt = P.pmap(_mk_c14_p1, [(s + 50 + i, 24 if quick else 300) for i in range(16)])
     pt += P.pmap(P._mk_resync, [(s + 80 + i, 3 if quick else 24) for i in range(8)])
+    pt += P.guard_sweep_traces(chk.rng)
     P.judge_and_harvest(chk, pt, ("C14", "C16"), "c14-p1")
     from . import drv_proto
     drv_proto.c14_part(chk)
@@ -196,6 +198,8 @@ def _pattern_stream(reader: str, cfg, pattern: str, total: int, rng: random.Rand
         return bytes(rng.randrange(256) for _ in range(total))
     elif pattern == "no_lf_no_slash":
         return bytes(rng.choice(b"abc 123") for _ in range(total))
+    elif pattern == "ident_then_no_lf":        # a readout starts, then the line end never comes again (CR only)
+        return b"/ABC5id\r\n" + (b"1-0:1.8.0(00001.000*kWh)\r" * (total // 25 + 1))[:total]
     elif pattern == "slash_repeated":
         unit = b"/"
     else:
@@ -206,7 +210,7 @@ def _pattern_stream(reader: str, cfg, pattern: str, total: int, rng: random.Rand
 HDLC_PATTERNS = ["all_flags", "flag_junk", "valid_frames", "never_ending_frame", "random", "esc_flag", "overshoot_then_flags", "header_then_flags",
                  "escape_run", "escape_dense_frame"]
 P1_PATTERNS = ["slash_lines_no_bang", "slash_no_lf", "ident_endless_lines", "valid_readouts", "random_ascii", "random", "no_lf_no_slash",
-               "slash_repeated"]
+               "slash_repeated", "ident_then_no_lf"]
 
 
 def _mem_job(args):
